@@ -47,6 +47,17 @@ def main():
                     viol("header", k, "OligoComputer(%d).get_header() = %r..., core header %r..." % (k, got[:6], parts[2][:40]))
                 rep["nontrivial"] += 1
                 continue
+            if tag == "T":
+                k, x = int(parts[1]), int(parts[2])
+                rep["evaluations"] += 1
+                a = pk.KmerGenerator("A", k).to_acgt(x)
+                b = pk.MinimiserGenerator("A", k, k).to_acgt(x)
+                if a != parts[3] or b != parts[3]:
+                    viol("to-acgt", k, "to_acgt(%d) with k=%d: KmerGenerator gives %r, MinimiserGenerator gives %r, core numeric_to_kmer gives %r" % (x, k, a, b, parts[3]))
+                else:
+                    rep["nontrivial"] += 1
+                count("to_acgt_cases")
+                continue
             raw = bytes.fromhex(parts[1])
             try:
                 s = raw.decode("utf-8")
